@@ -9,7 +9,7 @@ CHECKS = {
    note="the generator owns the model, so no second parser is needed; round-trip-safe = no blank/comment-only word lines, descriptions start with a non-empty line; a watchdog firing is inconclusive",
    technique="model-driven differential between the binary's files/stdout and the library, plus conversion round trips"),
  "C20": dict(level="exploration", design="§3 C20",
-   text="`seq` monitor driving the real binary: 400 (quick) / 8000 (thorough) generated project trees (1-4 tags in chains and forks, rule files with `!` and `~` filters incl. several names in non-file order and mixed case, word files, extra words on piped tags, deromaniser alias on a root); out/<tag>/*.wsca written by `asca seq -o -y` and by `-t <tag>` must equal my fold of asca::run over the configured entries; a cyclic or dangling variant of every tree (self-loop, 2- and 3-cycle, cycle outside the requested tag) must exit non-zero within the step budget and write nothing; `conv tag --recurse` exports are run through the library and compared with the tag's file.",
+   text="`seq` monitor driving the real binary: 400 (quick) / 8000 (thorough) generated project trees (1-4 tags in chains and forks, group names incl. non-ASCII cased letters, rule files with `!` and `~` filters incl. several names in non-file order and mixed case, word files, extra words on piped tags, deromaniser alias on a root); out/<tag>/*.wsca written by `asca seq -o -y` and by `-t <tag>` must equal my fold of asca::run over the configured entries; a cyclic or dangling variant of every tree (self-loop, 2- and 3-cycle, cycle outside the requested tag) must exit non-zero within the step budget and write nothing; `conv tag --recurse` exports are run through the library and compared with the tag's file.",
    note="the model of a tag is read off doc-cli.md / seq.rs: parent words, then word files separated by one empty line; each entry applied to the previous stage's rendered words with the tag's own alias; a stage that errors yields no file",
    technique="model-driven differential on the binary's output tree + bounded rejection of cyclic configurations"),
  "C12": dict(level="exploration", design="§3 C12",
@@ -25,15 +25,15 @@ CHECKS = {
    note="for ipa outputs per-syllable counts are not compared (documented shortening of long segments)",
    technique="projection-equality runtime monitor on the structural hook"),
  "C15": dict(level="exploration", design="§3 C15",
-   text="Alias monitor: 100 k (quick) / 3 M (thorough) cases; romaniser sets (1-5 lines in random order: one or two plain segments or a one-feature matrix > fresh string, `+`string, `*`, optional `$` line) are checked against a reference printer applied to the structural result of the run WITHOUT aliases - which establishes at once that the underlying words are the same and that the printed form is the default rendering rewritten by the table; deromaniser sets (fresh string > X or X:[+long]) are checked by encoding the word segment by segment and comparing run(R, encode(w), into=D) with run(R, w).",
+   text="Alias monitor: 100 k (quick) / 3 M (thorough) cases; romaniser sets (1-5 lines in random order: one or two plain segments or a one-feature matrix > fresh string, `+`string, `*`, optional `$` line) are checked against a reference printer applied to the structural result of the run WITHOUT aliases - which establishes at once that the underlying words are the same and that the printed form is the default rendering rewritten by the table; deromaniser sets (fresh string > X or X:[+long], and fresh string > a sequence of 2-3 segments some of them long or overlong, typed into the word as one item) are checked by encoding the word segment by segment and comparing run(R, encode(w), into=D) with run(R, w).",
    note="`+` lines are judged on base phones only (the program appends to the nearest base phone by design); alias lines the program rejects are counted, not judged",
    technique="reference-printer / encode-decode runtime monitor (structural hook + public API)"),
  "C17": dict(level="fault_enumeration", design="§3 C17",
-   text="Fault-injection monitor: 60 (quick) / 1500 (thorough) valid projects (rule groups with blank and comment lines, words, alias lines) x a catalogue of 30 rule-syntax faults, 16 rule-runtime faults (each with a word that makes it fire), 15 alias faults and 8 word faults planted at EVERY position in turn (32 k runs quick); run must return Err, the matching formatter is called under catch_unwind, and its text is parsed: the named group/line (alias line, word) must be the planted one, the quoted line the planted text, and every caret within [0, chars(line)+1). The evidence lists the error variants reached.",
+   text="Fault-injection monitor: 60 (quick) / 1500 (thorough) valid projects (rule groups with blank and comment lines, words, alias lines) x a catalogue of 30 rule-syntax faults, 16 rule-runtime faults (each with a word that makes it fire), 15 alias faults and 8 word faults planted at EVERY position in turn, each also on a line that carries precomposed letters which the program rewrites before lexing (52 k runs quick); run must return Err, the matching formatter is called under catch_unwind, and its text is parsed: the named group/line (alias line, word) must be the planted one, the quoted line the planted text, and every caret within [0, chars(line)+1). The evidence lists the error variants reached.",
    note="error texts are only parsed for position, quoted line and caret columns; position-less errors (e.g. DeletionOnlySeg) and empty caret spans are counted, not judged",
    technique="fault injection at every position + offline check of the formatted error against the planted position"),
  "C01": dict(level="exploration", design="§3 C01",
-   text="Multi-process differential on the public API: 8 (quick) / 48 (thorough) fresh processes - each with its own hash seed, the run reports how many distinct base-phone table orders they had - evaluate the same ~120 k inputs chosen to hit every tie-break of the renderer (`[] > [±F]` on every k-th base and base+diacritic spelling, the same through `+` romanisers, harvested rules x harvested words, error inputs, printed traces); every batch is also run twice in a row, with the words reversed, and as one list vs word by word. Any input whose result differs across processes, calls or orders is a violation.",
+   text="Multi-process differential on the public API: 8 (quick) / 48 (thorough) fresh processes - each with its own hash seed, the run reports how many distinct base-phone table orders they had - evaluate the same ~120 k inputs chosen to hit every tie-break of the renderer (`[] > [±F]` on every k-th base and base+diacritic spelling, the same through `+` romanisers, harvested rules x harvested words, error inputs, printed traces, and 600 / 6000 rules that bind an alpha or variable in one input element and use it in a later one, on lists of short words over a small inventory); every batch is also run twice in a row, with the words reversed (call by call and as one reversed list), and as one list vs word by word. Any input whose result differs across processes, calls or orders is a violation.",
    note="hash seeds cannot be chosen, only sampled (distinct table orders observed are reported); thread-level concurrency is outside the property",
    technique="multi-process / repeated-call / permutation differential (offline comparison of per-process result logs)"),
  "C10": dict(level="exploration", design="§3 C10",
@@ -45,7 +45,7 @@ CHECKS = {
    note="known findings KF-C09-1/2: a stop or nasal next to a click consonant is ambiguous in the notation itself; structural comparison through the hook, public API for the fixed-point part",
    technique="render/parse round-trip runtime monitor (structural hook + public API fixed point)"),
  "C06": dict(level="exploration", design="§3 C06",
-   text="Planted-absent-literal monitor: 300 k (quick) / 20 M (thorough) rules from the full-grammar generator (all four rule types, sets, optionals, ellipses, structures, variables, alphas, environment sets, condensed rules) get a reserved segment that no generated word contains planted as a mandatory element of every input alternative (insertion: of the context); whenever the real interpreter returns Ok the structural word (hook) must equal the input. The run also checks that the plant is what stops the rule (the unplanted rule changes the word in ~13 % of the cases, which is what is counted as non-trivial). Blank and comment-only lines are checked too.",
+   text="Planted-absent-literal monitor: 300 k (quick) / 20 M (thorough) rules from the full-grammar generator (all four rule types, sets, optionals, ellipses, structures, variables, alphas, environment sets, condensed rules) get a reserved segment that no generated word contains planted as a mandatory element of every input alternative (insertion: of the context); whenever the real interpreter returns Ok the structural word (hook) must equal the input. A third of the words are instantiated from the rule as it was before the plant went in (so that everything but the plant matches), a quarter are built from recurring syllables (so that back-references match), the rest are random. The run also checks that the plant is what stops the rule (the unplanted rule changes the word in ~19 % of the cases, which is what is counted as non-trivial). Blank and comment-only lines are checked too.",
    note="the plant is placed at the top level of the input / context, never inside a set or optional, so it is mandatory by construction; panics and budget exhaustion are recorded for C02, not judged here",
    technique="invariant (output == input) runtime monitor over generated rules with a planted mandatory absent literal"),
  "C07": dict(level="exploration", design="§3 C07",
